@@ -29,17 +29,21 @@ C_FUNCS1 = ["sin", "cos", "tan", "asin", "acos", "atan", "sinh", "cosh", "tanh",
             "sqrt", "cbrt"]
 RECIP = ["cot", "sec", "csc", "acot", "asec", "acsc", "coth", "sech", "csch", "acoth", "asech", "acsch"]
 NONC_FUNCS1 = ["lambertw", "zeta", "dirichlet_eta", "conjugate"]
-INTS = ["0", "1", "-1", "2", "-2", "3", "-3", "5", "7", "10", "-12", "100", "2147483647", "2147483648",
-        "-2147483649", "4294967296", "9007199254740993", "9223372036854775807"]
+SMALL_INTS = ["0", "1", "-1", "2", "-2", "3", "-3", "5", "7", "10", "-12", "100"]
+INTS = SMALL_INTS + ["2147483647", "2147483648", "-2147483649", "4294967296", "9007199254740992", "4611686018427387904"]
 BIG_INTS = ["9223372036854775808", "-9223372036854775809", "18446744073709551616", "1180591620717411303424",
             "-100000000000000000000000000000"]
 RATS = ["(q 1 2)", "(q -1 2)", "(q 1 3)", "(q -1 3)", "(q 2 3)", "(q -2 3)", "(q 3 2)", "(q 5 7)", "(q -7 4)",
         "(q 1 10)", "(q 123456789 1000)", "(q 1 9007199254740993)", "(q 100000000000000 3)",
         "(q 999999999999999 7)", "(q 1000000000000000 7)", "(q 1 36893488147419103233)"]
+SMALL_RATS = ["(q 1 2)", "(q -1 2)", "(q 1 3)", "(q -1 3)", "(q 2 3)", "(q -2 3)", "(q 3 2)", "(q 5 7)", "(q -7 4)", "(q 1 10)"]
+SMALL_DBLS = ["3ff8000000000000", "bff8000000000000", "3fb999999999999a", "4004000000000000", "c004000000000000",
+              "3ff0000000000000", "bff0000000000000", "0000000000000000", "8000000000000000", "3fd5555555555555",
+              "400921fb54442d18", "3f50624dd2f1a9fc", "40c3880000000000"]
 DBLS = ["3ff8000000000000", "bff8000000000000", "3fb999999999999a", "4004000000000000", "c004000000000000",
         "3ff0000000000000", "bff0000000000000", "0000000000000000", "8000000000000000", "4340000000000000",
         "42d6bcc41e900000", "c2a2309ce5400000", "3ee4f8b588e368f1", "4480f0cf064dd592", "3fd5555555555555",
-        "400921fb54442d18", "0000000000000001", "7fefffffffffffff", "3f50624dd2f1a9fc", "40c3880000000000"]
+        "400921fb54442d18", "0000000000000001", "3f50624dd2f1a9fc", "40c3880000000000"]
 NONFINITE_DBLS = ["7ff0000000000000", "fff0000000000000", "7ff8000000000000"]
 WHITELIST = set("""sin cos tan asin acos atan atan2 sinh cosh tanh asinh acosh atanh log exp fabs floor ceil trunc erf
 erfc tgamma lgamma sqrt cbrt pow fmax fmin INFINITY NAN HUGE_VAL x y z w ab""".split())
@@ -49,23 +53,23 @@ POINTS = [(0.7, 1.3, 2.1, 0.4, 3.2), (1.9, 0.6, 0.3, 2.7, 1.1), (-0.8, 2.4, -1.6
 
 
 # ------------------------------------------------------------------ generators
-def g_num(rng, exotic=False):
+def g_num(rng, exotic=False, big=True):
     r = rng.random()
     if r < 0.5:
-        return "(i %s)" % rng.choice(INTS)
+        return "(i %s)" % rng.choice(INTS if big else SMALL_INTS)
     if r < 0.75:
-        return rng.choice(RATS)
-    if r < 0.95 or not exotic:
-        return "(d %s)" % rng.choice(DBLS)
+        return rng.choice(RATS if big else SMALL_RATS)
+    if r < 0.95 or not exotic or not big:
+        return "(d %s)" % rng.choice(DBLS if big else SMALL_DBLS)
     return "(i %s)" % rng.choice(BIG_INTS)
 
 
-def g_leaf(rng, exotic=False):
+def g_leaf(rng, exotic=False, big=True):
     r = rng.random()
     if r < 0.55:
         return rng.choice(SYMS)
     if r < 0.9:
-        return g_num(rng, exotic)
+        return g_num(rng, exotic, big)
     return rng.choice(["pi", "E", "EulerGamma" if exotic else "pi"])
 
 
@@ -77,20 +81,22 @@ SAFE_EXPS = ["x", "y", "(add x (i 1))", "(neg y)", "(mul (i 2) z)", "(div x (i 2
              "(sub (i 1) w)", "(f1 sin x)", "(pow y (i -1))", "(q 7 2)", "(i 5)", "(i -3)"]
 
 
-def g_arith(rng, depth, exotic=False):
+def g_arith(rng, depth, exotic=False, big=True):
     """arithmetic-valued expressions aimed at the printer's case splits: coefficients +1/-1/other,
     negative and rational coefficients, exponents -1, 1/2, 1/3, negative rationals, base E,
-    sums inside products and powers, quotients with one or several denominator factors"""
+    sums inside products and powers, quotients with one or several denominator factors.
+    big=False below a function call: large or inexactly representable constants there make the
+    compiler oracle ill-conditioned (sin(1e14) ...)"""
     if depth <= 0 or rng.random() < 0.18:
-        return g_leaf(rng, exotic)
+        return g_leaf(rng, exotic, big)
     r = rng.random()
-    a = g_arith(rng, depth - 1, exotic)
+    a = g_arith(rng, depth - 1, exotic, big)
     if r < 0.22:
-        return "(%s %s %s)" % (rng.choice(["add", "add", "sub"]), a, g_arith(rng, depth - 1, exotic))
+        return "(%s %s %s)" % (rng.choice(["add", "add", "sub"]), a, g_arith(rng, depth - 1, exotic, big))
     if r < 0.40:
-        return "(mul %s %s)" % (a, g_arith(rng, depth - 1, exotic))
+        return "(mul %s %s)" % (a, g_arith(rng, depth - 1, exotic, big))
     if r < 0.52:
-        return "(div %s %s)" % (a, g_arith(rng, depth - 1, exotic))
+        return "(div %s %s)" % (a, g_arith(rng, depth - 1, exotic, big))
     if r < 0.57:
         return "(neg %s)" % a
     if r < 0.72:
@@ -99,14 +105,15 @@ def g_arith(rng, depth, exotic=False):
         return "(pow %s %s)" % (b, e)
     if r < 0.86:
         f = rng.choice(C_FUNCS1)
+        a = g_arith(rng, depth - 1, exotic, False)
         if f in ("gamma", "loggamma"):
             a = "(add %s %s)" % (rng.choice(SYMS), a)     # gamma of a large integer would be computed
         return "(f1 %s %s)" % (f, a)
     if r < 0.89:
-        return "(f2 atan2 %s %s)" % (a, g_arith(rng, depth - 1, exotic))
+        return "(f2 atan2 %s %s)" % (g_arith(rng, depth - 1, exotic, False), g_arith(rng, depth - 1, exotic, False))
     if r < 0.93:
         n = rng.randint(2, 5)
-        return "(%s %s)" % (rng.choice(["max", "min"]), " ".join([a] + [g_arith(rng, depth - 1, exotic) for _ in range(n - 1)]))
+        return "(%s %s)" % (rng.choice(["max", "min"]), " ".join([a] + [g_arith(rng, depth - 1, exotic, big) for _ in range(n - 1)]))
     if r < 0.97:
         return g_pw(rng, depth - 1, exotic)
     if not exotic:
@@ -117,7 +124,7 @@ def g_arith(rng, depth, exotic=False):
     if r < 0.45:
         return "(fs %s %s)" % (rng.choice(["f", "g"]), " ".join(g_arith(rng, 1, exotic) for _ in range(rng.randint(0, 3))))
     if r < 0.6:
-        return "(f1 %s %s)" % (rng.choice(RECIP), a)
+        return "(f1 %s %s)" % (rng.choice(RECIP), g_arith(rng, depth - 1, exotic, False))
     if r < 0.75:
         return "(uneval %s)" % a
     if r < 0.85:
@@ -188,7 +195,8 @@ CORPUS = [
     "(pow x (d bff8000000000000))", "(add x (d bff8000000000000))", "(div y (mul (d 4004000000000000) x))",
     "(div x (f1 sqrt (i 2)))", "(div (f1 sqrt (i 2)) (f1 sqrt x))",
     # literals
-    "(i 2147483648)", "(i -9223372036854775808)", "(i 9223372036854775807)", "(q 1 9007199254740993)",
+    "(i 2147483648)", "(i -9223372036854775808)", "(i 9223372036854775807)", "(add x (i 9007199254740993))",
+    "(d 7fefffffffffffff)", "(f1 abs (sub (mul pi z) (add x ab)))", "(sub (add x (mul (i 2) y)) (f1 abs (sub (mul pi z) (add x ab))))", "(q 1 9007199254740993)",
     "(q 3002399751580331 12297829382473034411)", "(d 42d6bcc41e900000)", "(d c2a2309ce5400000)", "(d 8000000000000000)",
     "(d 3ee4f8b588e368f1)", "(d 4480f0cf064dd592)", "(d 0000000000000001)", "(d 7fefffffffffffff)",
     # functions, constants
@@ -328,6 +336,20 @@ def compile_and_run(ctx, items):
                 results.setdefault(key, [None, None, None])[k] = v
             break
     return results, errors
+
+
+def float_unfit(text):
+    """the float text carries a constant with more than 6 significant digits or a huge / tiny magnitude:
+    single precision cannot be compared with the double reference there"""
+    for m in re.finditer(r"(?<![A-Za-z_])(\d+\.?\d*(?:e[+-]?\d+)?)f", text):
+        lit = m.group(1)
+        digits = re.sub(r"e.*", "", lit).replace(".", "").strip("0")
+        if len(digits) > 6:
+            return True
+        v = float(lit)
+        if v != 0 and (v > 1e6 or v < 1e-6):
+            return True
+    return False
 
 
 def close_enough(c, ref, rel, absol):
@@ -497,7 +519,7 @@ def explore(ctx, drv, model, cases, search=False):
                 ok = close_enough(c, ref, 1e-7, 1e-9)
             else:
                 # float: only gross errors, and only where the double text is right (cancellation)
-                ok = (abs(ref) > 3e38 or abs(ref) < 1e-2 or dvals is None or dvals[k] == "FPE" or dvals[k] is None
+                ok = (float_unfit(text) or abs(ref) > 3e38 or abs(ref) < 1e-2 or dvals is None or dvals[k] == "FPE" or dvals[k] is None
                       or not close_enough(dvals[k], ref, 1e-7, 1e-9) or close_enough(c, ref, 0.2, 0.0))
             if not ok:
                 key = classify(r, "value") if kind == "d" else "C15/float-wrong-value"
